@@ -46,6 +46,7 @@ func TestVerifC05(t *testing.T) {
 
 	emit := func(rec map[string]interface{}) {
 		out.Emit(rec)
+		out.Flush()
 	}
 	// calls returns the backend calls (tags) of a history without injection
 	calls := func(ops []vhsOp, wga bool) []int {
